@@ -137,8 +137,11 @@ package objectz
 //@   requires itPos[self] < itLen[self]
 //@   modifies itPos[self]
 //@   ensures itPos[self] == old(itPos[self]) + 1
+// iterOf(store): the iterator this scan obtains from the store's (user-supplied) iterator factory
+//@ spec iterOf(store Int) Int
 //@ funcfield ObjectStore.iteratorF
 //@   pure
+//@   ensures ref(result) == iterOf(self)
 //@   ensures result != nil ==> itPos[result] == 0 && 0 <= itLen[result] && itLen[result] < MaxInt64
 
 //@ func (*ObjectStore).newRowComparator
@@ -156,12 +159,12 @@ package objectz
 //@   requires query != nil && store != nil
 //@   requires scanner.offset == 0 && scanner.count == 0
 //@   modifies *
-//@   lensures[count] result2 == nil && cursor != nil ==> result1 == ocnt(query, cursor, itLen[cursor])
+//@   ensures[count] result2 == nil && iterOf(store) != 0 ==> result1 == ocnt(query, iterOf(store), itLen[iterOf(store)])
 //@   invariant[paging] 1: scanner.targetOffset == ite(old(qHasSkip[query]), max(old(qSkip[query]), 0), 0) && scanner.targetLimit == ite(old(qHasLimit[query]) && old(qLimit[query]) >= 0, old(qLimit[query]), MaxInt64)
 //@   invariant[window] 1: maxResults == min(MaxInt64, scanner.targetOffset + scanner.targetLimit)
 //@   invariant[tree-size] 1: treeLen[results] == min(scanner.count, maxResults)
 //@   invariant[count] 1: 0 <= itPos[cursor] && itPos[cursor] <= itLen[cursor] && itLen[cursor] < MaxInt64 && 0 <= scanner.count && scanner.count <= itPos[cursor] && scanner.count == ocnt(query, cursor, itPos[cursor])
-//@   invariant 1: cursor != nil && rowCursor != nil && results != nil
+//@   invariant 1: cursor != nil && ref(cursor) == iterOf(store) && rowCursor != nil && results != nil
 
 //@ func (*memSortingScanner).Scan$1
 //@   props C19
